@@ -566,6 +566,18 @@ impl<'a, C: Crypto + 'a> CaseInitiator<'a, C> {
 
         exchange.acknowledge().await?;
 
+        // The fabric might have been removed while the acknowledgement was under way
+        // (`RemoveFabric`, fail-safe rollback) - and with it the session just established.
+        // Then there is nothing to report, and nothing to remember for a later resumption.
+        if !session.exists() {
+            warn!(
+                "CASE: fabric {} vanished while the handshake was completing",
+                fab_idx.get()
+            );
+
+            return Err(ErrorCode::NoSession.into());
+        }
+
         // Seed the resumption cache with this freshly-established full
         // CASE session so a subsequent handshake with the same peer can
         // attempt resumption. The `resumption_id` came from `TBEData2`
@@ -734,6 +746,17 @@ impl<'a, C: Crypto + 'a> CaseInitiator<'a, C> {
 
         // ---- Send SigmaFinished (piggybacks MRP ack for Sigma2_Resume).
         complete_with_status(exchange, SCStatusCodes::SessionEstablishmentSuccess, &[]).await?;
+
+        // The fabric might have been removed while SigmaFinished was under way - and with it
+        // the session just established and the record we resumed from: do not bring it back.
+        if !session.exists() {
+            warn!(
+                "CASE resumption: fabric {} vanished while the handshake was completing",
+                record.fab_idx.get()
+            );
+
+            return Err(ErrorCode::NoSession.into());
+        }
 
         // ---- Rotate the cache entry. ----------------------------------
         //
